@@ -36,8 +36,8 @@ func isIndex(s string) (int, bool) {
 
 // Branch is one terminal of a path walk.
 type Branch struct {
-	V       interface{} // Missing if absent
-	FanOut  bool        // reached through implicit array traversal
+	V      interface{} // Missing if absent
+	FanOut bool        // reached through implicit array traversal
 }
 
 // Walk resolves comps on v following MongoDB path semantics (implicit traversal of arrays of
